@@ -447,7 +447,7 @@ func c12fProperty(t *rapid.T, st *Stats) {
 	st.Case(append([]string{fmt.Sprintf("k=%d", k)}, trace...), faultStep >= 0 && laterSameRepo, classes...)
 }
 
-// c12fReadOrdinals returns the ordinals (1-based, among the reading calls under root) of the reads whose path ends with suffix.
+// c12fReadOrdinals returns the ordinals (1-based, among the reading calls under root) of the opens of files whose path ends with suffix.
 func c12fReadOrdinals(log []vfs.Op, root, suffix string) []int {
 	out, n := []int{}, 0
 	for _, op := range log {
@@ -455,7 +455,7 @@ func c12fReadOrdinals(log []vfs.Op, root, suffix string) []int {
 			continue
 		}
 		n++
-		if strings.HasSuffix(op.Path, suffix) {
+		if strings.HasSuffix(op.Path, suffix) && op.Kind == "open" {
 			out = append(out, n)
 		}
 	}
